@@ -316,6 +316,59 @@ pub fn family_a_ipfix(max_body: usize) -> Arc<dyn Family> {
     })
 }
 
+/// Family E: every field type number 0..=520 (+600, 32767) x declared lengths incl. unsupported ones x short bodies,
+/// template and data in one packet and (odd indices) template in an earlier call
+pub fn family_e(ipfix: bool) -> Arc<dyn Family> {
+    const LENS: [u16; 14] = [0, 1, 2, 3, 4, 5, 6, 7, 8, 9, 16, 17, 255, 65535];
+    const BODIES: [usize; 10] = [0, 1, 2, 3, 4, 5, 8, 16, 17, 40];
+    let ntypes = 523u64;
+    let radices = [ntypes, LENS.len() as u64, BODIES.len() as u64, 2];
+    family(if ipfix { "E-ipfix-every-type x declared-length x body" } else { "E-v9-every-type x declared-length x body" }, product(&radices), move |i| {
+        let d = digits(i, &radices);
+        let ty: u16 = match d[0] {
+            521 => 600,
+            522 => 32767,
+            x => x as u16,
+        };
+        let len = LENS[d[1] as usize];
+        let body: Vec<u8> = (0..BODIES[d[2] as usize]).map(|j| fill(d[0] as usize, j)).collect();
+        let mut t = vec![];
+        p16(&mut t, 256);
+        p16(&mut t, 2);
+        p16(&mut t, ty);
+        p16(&mut t, len);
+        p16(&mut t, 5);
+        p16(&mut t, 1);
+        let (tset, dset) = (raw_set(if ipfix { 2 } else { 0 }, (t.len() + 4) as u16, &t), raw_set(256, (body.len() + 4) as u16, &body));
+        if ipfix {
+            let msg = |sets: &[&[u8]]| {
+                let total: usize = 16 + sets.iter().map(|s| s.len()).sum::<usize>();
+                let mut m = ipfix_hdr(total as u16);
+                for s in sets {
+                    m.extend_from_slice(s);
+                }
+                m
+            };
+            if d[3] == 0 {
+                Case { prior: vec![], input: msg(&[&tset, &dset]) }
+            } else {
+                Case { prior: vec![msg(&[&tset])], input: msg(&[&dset]) }
+            }
+        } else if d[3] == 0 {
+            let mut p = v9_hdr(2);
+            p.extend(&tset);
+            p.extend(&dset);
+            Case { prior: vec![], input: p }
+        } else {
+            let mut t = v9_hdr(1);
+            t.extend(&tset);
+            let mut p = v9_hdr(1);
+            p.extend(&dset);
+            Case { prior: vec![t], input: p }
+        }
+    })
+}
+
 // ------------------------------------------------------------------------------------------------ seeds
 
 pub fn corpus() -> Vec<(String, Vec<u8>)> {
